@@ -69,7 +69,9 @@ end Trie
 def lowerC (c : Char) : Char :=
   if 65 ≤ c.toNat ∧ c.toNat ≤ 90 then Char.ofNat (c.toNat + 32) else c
 
-def lower (s : List Char) : List Char := s.map lowerC
+/-- `strings.ToLower` = decode, map `unicode.ToLower` rune-wise, encode.  `lc` is the rune map: `lowerC` on ASCII,
+    Go's `unicode.ToLower` elsewhere (external table, a parameter of the model). -/
+def lower (lc : Char → Char) (s : List Char) : List Char := s.map lc
 
 /-- `hostnameStrip`: `strings.Split(hostname, ":")[0]` -/
 def stripPort (s : List Char) : List Char := s.takeWhile (· ≠ ':')
@@ -100,26 +102,37 @@ structure Entry where
   route : Route
 
 /-- path used by `buildHostRoute` for a configured host -/
-def confPath (host : List Char) : List Label := splitDot (reverseFqdn (lower host))
+def confPath (lc : Char → Char) (host : List Char) : List Label := splitDot (reverseFqdn (lower lc host))
 
 /-- path used by `findHostRoute` for a request host -/
-def probePath (host : List Char) : List Label := splitDot (reverseFqdn (stripPort (lower host)))
+def probePath (lc : Char → Char) (host : List Char) : List Label := splitDot (reverseFqdn (stripPort (lower lc host)))
 
 /-- `buildHostRoute`: the entries in the (arbitrary) order in which Go's `range` over `HostMap` yields them -/
-def buildHostRoute (es : List Entry) : Trie Route :=
-  es.foldl (fun t e => Trie.set (confPath e.host) e.route t) Trie.empty
+def buildHostRoute (lc : Char → Char) (es : List Entry) : Trie Route :=
+  es.foldl (fun t e => Trie.set (confPath lc e.host) e.route t) Trie.empty
 
-def findHostRoute (t : Trie Route) (host : List Char) : Option Route := Trie.get (probePath host) t
+def findHostRoute (lc : Char → Char) (t : Trie Route) (host : List Char) : Option Route := Trie.get (probePath lc host) t
 
-/-- `findVipRoute` -/
-def findVipRoute (vips : List (String × String)) (vip : String) : Option Route :=
+/-- `IP.To16()`: a 16-byte address is itself, a 4-byte address is its IPv4-mapped form, anything else has none -/
+def to16 (ip : List UInt8) : Option (List UInt8) :=
+  if ip.length = 16 then some ip
+  else if ip.length = 4 then some ([0, 0, 0, 0, 0, 0, 0, 0, 0, 0, 255, 255] ++ ip)
+  else none
+
+/-- `findVipRoute`.  The Go table is keyed by `net.IP.String()` of the configured address and probed with
+    `vip.String()`; the model keys it by the 16-byte form (`String` is injective on 16-byte forms, prints a
+    4-byte address like its IPv4-mapped form and prints other lengths as `?…`, which no key equals — trusted,
+    exercised). -/
+def findVipRoute (vips : List (List UInt8 × String)) (vip : List UInt8) : Option Route :=
   if vips.length = 0 then none
-  else (vips.lookup vip).map fun p => { product := p, tag := "" }
+  else match to16 vip with
+    | none => none
+    | some k => (vips.lookup k).map fun p => { product := p, tag := "" }
 
 /-- result of `LookupHostTagAndProduct`: `none` = ErrNoProduct (HostTag/Product are then empty) -/
-def lookupHostTagAndProduct (es : List Entry) (vips : List (String × String)) (defaultProduct : String)
-    (host : List Char) (vip : Option String) : Option Route :=
-  let r := findHostRoute (buildHostRoute es) host
+def lookupHostTagAndProduct (lc : Char → Char) (es : List Entry) (vips : List (List UInt8 × String))
+    (defaultProduct : String) (host : List Char) (vip : Option (List UInt8)) : Option Route :=
+  let r := findHostRoute lc (buildHostRoute lc es) host
   let r := match r with
     | some x => some x
     | none => match vip with
@@ -143,16 +156,27 @@ def dropTrailingDot (s : List Char) : List Char :=
   | '.' :: r => r.reverse
   | _ => s
 
-def confLabels (host : List Char) : List Label := splitDot (dropTrailingDot (lower host))
+def confLabels (lc : Char → Char) (host : List Char) : List Label := splitDot (dropTrailingDot (lower lc host))
 
-def probeLabels (host : List Char) : List Label := splitDot (dropTrailingDot (stripPort (lower host)))
+/-- the labels the CODE extracts from a request host (cut at the first colon) -/
+def probeLabels (lc : Char → Char) (host : List Char) : List Label := splitDot (dropTrailingDot (stripPort (lower lc host)))
+
+/-- host part of a Host header value as the SPECIFICATION reads it: a bracketed IPv6 literal `[…]` is kept whole
+    (RFC 3986 host), otherwise everything before the first colon -/
+def specHostPart (s : List Char) : List Char :=
+  match s with
+  | '[' :: rest => if rest.contains ']' then '[' :: rest.takeWhile (· ≠ ']') ++ [']'] else s.takeWhile (· ≠ ':')
+  | _ => s.takeWhile (· ≠ ':')
+
+def specProbeLabels (lc : Char → Char) (host : List Char) : List Label :=
+  splitDot (dropTrailingDot (specHostPart (lower lc host)))
 
 def validPattern (ls : List Label) : Bool := ls.tail.all (· ≠ star)
 
 /-- the configured patterns that mean something, with their routes -/
-def patterns (es : List Entry) : List (List Label × Route) :=
+def patterns (lc : Char → Char) (es : List Entry) : List (List Label × Route) :=
   es.filterMap fun e =>
-    let p := confLabels e.host
+    let p := confLabels lc e.host
     if validPattern p then some (p, e.route) else none
 
 /-- proper suffixes, longest first -/
@@ -166,28 +190,32 @@ def specExact (ps : List (List Label × Route)) (l : List Label) : Option Route 
 def specWild (ps : List (List Label × Route)) (l : List Label) : Option Route :=
   (properSuffixes l).findSome? fun s => specExact ps (star :: s)
 
-def specFindHost (es : List Entry) (host : List Char) : Option Route :=
-  let l := probeLabels host
-  match specExact (patterns es) l with
+/-- exact entry, else longest-suffix wildcard entry, for given request labels -/
+def specFindHostAt (ps : List (List Label × Route)) (l : List Label) : Option Route :=
+  match specExact ps l with
   | some r => some r
-  | none => specWild (patterns es) l
+  | none => specWild ps l
 
-def specLookup (es : List Entry) (vips : List (String × String)) (defaultProduct : String)
-    (host : List Char) (vip : Option String) : Option Route :=
-  match specFindHost es host with
+def specFindHost (lc : Char → Char) (es : List Entry) (host : List Char) : Option Route :=
+  specFindHostAt (patterns lc es) (specProbeLabels lc host)
+
+def specLookup (lc : Char → Char) (es : List Entry) (vips : List (List UInt8 × String)) (defaultProduct : String)
+    (host : List Char) (vip : Option (List UInt8)) : Option Route :=
+  match specFindHost lc es host with
   | some r => some r
   | none =>
-    match vip.bind (fun v => vips.lookup v) with
+    -- the product configured for the address the connection arrived on (IPv4 = IPv4-mapped IPv6)
+    match vip.bind (fun v => (to16 v).bind fun k => vips.lookup k) with
     | some p => some { product := p, tag := "" }
     | none => if defaultProduct = "" then none else some { product := defaultProduct, tag := "" }
 
 /-- well-formedness of a host table: the meaningful patterns are pairwise distinct after normalisation
     (`HostRuleConfLoad` only rejects byte-identical duplicates; distinctness after normalisation is what
     makes the result independent of Go's map iteration order) -/
-def WF (es : List Entry) : Prop := ((patterns es).map (·.1)).Nodup
+def WF (lc : Char → Char) (es : List Entry) : Prop := ((patterns lc es).map (·.1)).Nodup
 
-def wfB (es : List Entry) : Bool :=
-  let ks := (patterns es).map (·.1)
+def wfB (lc : Char → Char) (es : List Entry) : Bool :=
+  let ks := (patterns lc es).map (·.1)
   (List.range ks.length).all fun i => (List.range i).all fun j => ks.getD i [] != ks.getD j []
 
 end BfeVerif.C10
